@@ -88,6 +88,25 @@ ROUTINES = [
     ("DataTable.cpp", r"DataTable::addRow\(std::.*?basic_string.*?, std::vector", "DataTable::addRow(name, vector)", "modelled"),
     ("DataTable.cpp", r"DataTable::setRowNames\(", "DataTable::setRowNames", "modelled"),
     ("DataTable.cpp", r"DataTable::setColumnNames\(", "DataTable::setColumnNames", "modelled"),
+    ("DataTable.cpp", r"DataTable::setRowName\(", "DataTable::setRowName (all overloads)", "search-only (dt.edit)"),
+    ("DataTable.cpp", r"DataTable::getRowName\(", "DataTable::getRowName (all overloads)", "search-only (dt.edit)"),
+    ("DataTable.cpp", r"DataTable::getRowNames\(", "DataTable::getRowNames (all overloads)", "search-only (dt.edit)"),
+    ("DataTable.cpp", r"DataTable::getColumnName\(", "DataTable::getColumnName (all overloads)", "search-only (dt.edit)"),
+    ("DataTable.cpp", r"DataTable::getColumnNames\(", "DataTable::getColumnNames (all overloads)", "search-only (dt.edit)"),
+    ("DataTable.cpp", r"DataTable::getColumn\(", "DataTable::getColumn (all overloads)", "search-only (dt.edit)"),
+    ("DataTable.cpp", r"DataTable::hasColumn\(", "DataTable::hasColumn (all overloads)", "search-only (dt.edit)"),
+    ("DataTable.cpp", r"DataTable::hasRow\(", "DataTable::hasRow (all overloads)", "search-only (dt.edit)"),
+    ("DataTable.cpp", r"DataTable::deleteColumn\(", "DataTable::deleteColumn (all overloads)", "search-only (dt.edit)"),
+    ("DataTable.cpp", r"DataTable::addColumn\(", "DataTable::addColumn (all overloads)", "search-only (dt.edit)"),
+    ("DataTable.cpp", r"DataTable::getRow\(", "DataTable::getRow (all overloads)", "search-only (dt.edit)"),
+    ("DataTable.cpp", r"DataTable::deleteRow\(", "DataTable::deleteRow (all overloads)", "search-only (dt.edit)"),
+    ("DataTable.cpp", r"DataTable::setRow\(", "DataTable::setRow (all overloads)", "search-only (dt.edit)"),
+    ("DataTable.cpp", r"DataTable::operator\(\)\(", "DataTable::operator() (all overloads)", "search-only (dt.edit)"),
+    ("DataTable.cpp", r"DataTable::write\(", "DataTable::write (all overloads)", "search-only (dt.edit)"),
+    ("AttributesTools.cpp", r"AttributesTools::parseOptions\(", "AttributesTools::parseOptions", "search-only (at.opts)"),
+    ("AttributesTools.cpp", r"AttributesTools::getVector\(", "AttributesTools::getVector", "search-only (at.opts)"),
+    ("AttributesTools.cpp", r"AttributesTools::actualizeAttributesMap\(", "AttributesTools::actualizeAttributesMap", "search-only (at.opts)"),
+    ("AttributesTools.cpp", r"AttributesTools::getAttributesMapFromFile\(", "AttributesTools::getAttributesMapFromFile", "search-only (at.opts)"),
     ("BppODiscreteDistributionFormat.cpp", r"listContent_", "listContent_ (distribution reader)", "modelled (Simple lists)"),
     ("BppODiscreteDistributionFormat.cpp", r"BppODiscreteDistributionFormat::readDiscreteDistribution\(", "BppODiscreteDistributionFormat::readDiscreteDistribution", "search-only (Simple lists modelled)"),
     ("BppODiscreteDistributionFormat.cpp", r"BppODiscreteDistributionFormat::initialize_\(", "BppODiscreteDistributionFormat::initialize_", "search-only"),
